@@ -490,9 +490,10 @@ namespace fixedmath
       {
       if( fixed_likely(y.v != 0) )
         {
-        fixed_t result { as_fixed( (x << 16).v / y.v ) };
-//         if( fixed_likely( check_division_result(result)) )
-          return result;
+        //128bit dividend, x << 16 drops the upper bits of |x| >= 2^31 and INT64_MIN / -1 traps
+        __int128 const result { static_cast<__int128>(x.v) * 65536 / y.v };
+        if( fixed_likely( result >= limits_::lowest().v && result <= limits_::max().v ) )
+          return as_fixed( static_cast<fixed_internal>(result) );
         }
       return quiet_NaN_result(); //abort ?
       }
@@ -527,6 +528,9 @@ namespace fixedmath
       {
       if( fixed_likely(rh != 0) )
         {
+        if constexpr( is_unsigned_v<integral_type> && sizeof(integral_type) == sizeof(fixed_internal) )
+          if( rh > static_cast<integral_type>( std::numeric_limits<fixed_internal>::max() ) )
+            return fixed_t{}; //divisor does not fit into signed promotion and is greater than any |lh.v|
         fixed_t const result = as_fixed( lh.v / promote_type_to_signed(rh) );
 //         if( fixed_likely( check_division_result(result)) )
           return result;
